@@ -37,6 +37,12 @@ CLAIMED = {
  'C06': ('structure-aware tampering of reference-made ciphertexts (exhaustive bit flips, truncations and prefix bytes per base; invalid-curve forgeries with consistent C2/C3; non-residue, nudged and non-canonical C1) judged by an independent strict decryptor',
          'Every case is (valid base ciphertext made by the reference encryptor, tampering); whatever the reference decryptor rejects the library must reject with Err (a plaintext or a panic is a violation), and an accepted ciphertext must give the original plaintext. Exhaustive per base: every single-bit flip incl. the prefix byte, every truncation length, all 256 prefix bytes; C1 replaced by off-curve points with C2/C3 forged through the group law of the curve y^2=x^3+ax+b\' the point lies on (the invalid-curve attack in its sensitive form), by x+p encodings of small-x points, by non-residue compressed x, by the other SEC1 form; 600 (thorough 20000) parity-only flips of compressed C1.',
          'Trusted: reference decryptor with strict SEC1 decoding. Rejection is decided for the generated tamperings only.', '5/C06'),
+ 'C15': ('model-based testing of protocol histories: the four key-agreement steps with injected ephemeral scalars, interpreted side by side with a GB/T 32918.3 reference; every subset of the four messages tampered (valid/negated/off-curve points, bit-flipped confirmations, same point in another representation)',
+         'A history is (keys, IDs, klen, rA, rB, subset of {R_A,R_B,S_B,S_A} altered in transit). For honest histories R_A, R_B, K_B, S_B, K_A, S_A are compared exactly with the reference (w = 127, one-byte tags; GM/T 0003.5 Annex example included) and both confirmations must succeed; for tampered histories A must report failure iff R_A, R_B or S_B changed, B must accept iff R_A and S_A did not, off-curve points must be rejected at once, and re-randomised Jacobian representations of the same point must change nothing. All 16 subsets x 4 alteration kinds exhaustively plus generated histories.',
+         'Trusted: reference key agreement (reproduces the Annex K, S_B, S_A). Hooks: RNG candidate override for rA/rB, accessor for the crate-private derived key.', '5/C15'),
+ 'C19': ('round-trip and differential property testing of every encoding (SEC1, hex, SPKI/PKCS#8/SEC1 DER, PEM, GM/T 0009 ASN.1 ciphertext) against an independent strict DER/PEM codec and OpenSSL documents; stored and walked keys/nonces with leading-zero coordinates; exhaustive malformed lengths, truncations and bit flips of encodings',
+         'Every key (edge scalars, stored scalars whose point has 2-3 leading zero bytes, a walk of 1200 consecutive scalars, generated ones) is encoded and decoded through all forms in both directions, against documents written by the reference codec (with/without parameters and public key) and by OpenSSL; decoders must reject, without panicking, every wrong length 0..=70, wrong prefix, off-curve or >= p coordinate, malformed hex and every truncation of DER documents, and whatever they accept from bit-flipped documents must be a valid key. encrypt_asn1 with injected k (C1 coordinates with 0..3 leading zero bytes, top bit set, all four flag combinations) must yield exactly SEQUENCE{INTEGER x, INTEGER y, OCTET STRING C3, OCTET STRING C2} of the reference ciphertext and round-trip; 72 OpenSSL documents must decrypt.',
+         'Trusted: harness/src/refimpl/der.rs (reproduces OpenSSL 3.0.20 SPKI, PKCS#8 and SM2Cipher documents byte for byte). For corrupted DER only no-panic and validity-of-what-is-accepted are asserted.', '5/C19'),
 }
 PENDING_REASON = 'check not implemented yet in this commit (work in progress; planned in DESIGN.md section 5) — not claimed until its machinery exists and is silent on the unchanged tree'
 
